@@ -442,7 +442,13 @@ func observe(c *chain, g *gen, maxBlock, maxTxn uint32, shape string) (*obs, err
 			nConf++
 		}
 	}
+	// block time: right after the head, or hours / weeks later. Coin hours accrue in
+	// proportion to an input's coins, so fee ranks at block time differ from the ranks at
+	// head time; the documented order (and every fee rule of the chain) uses the HEAD time.
 	when := hb.Time() + 1 + uint64(g.r.Intn(20))
+	if g.r.Chance(55) {
+		when = hb.Time() + 3600*uint64(1+g.r.Intn(400))
+	}
 	var sb coin.SignedBlock
 	var cerr error
 	panicked := Guard(func() { sb, cerr = c.pub.V.VerifCreateBlock(when) })
@@ -675,7 +681,7 @@ func run(args []string) error {
 				maxBlock = uint32(100 + r.Intn(300))
 				maxTxn = params.UserVerifyTxn.MaxTransactionSize
 			}
-			if !forceDefault && r.Chance(25) {
+			if !forceDefault && r.Chance(40) {
 				// block limit exactly at (or one byte around) a prefix sum of the valid
 				// transactions in fee order: the boundary of TruncateBytesTo
 				if mb, ok := boundaryLimit(c, r); ok {
